@@ -9,15 +9,16 @@ EXPLANATION = ("The canonical form is specified in Coq from the encoding specifi
                "version independence), the canonical bytes decode to exactly the canonical representative, which is equal to "
                "the value; canonicalising what was read back returns the same bytes; the output is one word-aligned segment; "
                "capabilities have no canonical form. capnp.Canonicalize is modelled step by step over the builder and reader "
-               "models (coq/Value/CanonM.v); [T2] (model = specification) is proved in stages (null struct, the size "
-               "computation canonicalStructSize for every struct, all-default structs end to end). On every generated input "
+               "models (coq/Value/CanonM.v); [T2] (model = specification) is proved by a heap-level induction for EVERY value "
+               "(canon_m_correct: structs, void / bit / primitive / pointer / struct lists, any depth and layout), and a "
+               "value containing a capability never yields bytes (canon_m_cap_error). On every generated input "
                "the harness compares Canonicalize's bytes with the extracted model AND with canon applied to the walked tree, "
                "and evaluates the property's own predicates on the implementation (reads back Equal, idempotent, same bytes "
                "for all layouts and schema versions of a value).")
 TRUSTED = ["canonical-form specification coq/Value/CanonSpec.v written from encoding.html#canonicalization (trusted reading)",
            "model coq/Value/CanonM.v hand-written from canonical.go over coq/Core/Builder.v and Reader.v; its agreement with "
-           "the specification (canon_m_correct_statement, [T2]) is proved in stages only (null struct, canonicalStructSize, "
-           "all-default structs); for general values the implementation is tied to the SPECIFICATION directly by the "
+           "the specification ([T2]) is proved for every value (canon_m_correct); the IMPLEMENTATION is tied to the model and "
+           "to the SPECIFICATION by the "
            "correspondence run (Canonicalize bytes = canon (denote (walk input)) on every case, 0 disagreements)",
            "the strict decoder cdecode is tied to the library's reader only by the run (flag R: output read back with the Go "
            "reader is Equal to the input; flag P: cdecode accepts every canon output and re-canonicalises to the same bytes)"]
@@ -29,14 +30,18 @@ ASSUMPTIONS = ["values are well formed, field values fit their fields, no capabi
 LEVEL_TEXT = ("Proof ([T1], all values): canon_unique (value_eqs a b -> canon a = canon b), cdecode_canon (the strict pre-order "
               "decoder reads the canonical bytes back as exactly norm v), canon_decodes_equal (value_eqs and value_eq to v), "
               "canon_idempotent, canon_norm, canon_aligned, canon_cap_none; cparse_enc for every normal-form value incl. bit, "
-              "primitive and struct lists. [T2] stated in full (canon_m_correct_statement) and proved in stages: "
-              "canon_m_null, canonicalStructSize_spec (every struct), canon_m_default_struct (end to end); its consequences "
-              "for Canonicalize are proved conditionally (..._if). Defects F04, O2 and O3 found by the run and fixed; pre-fix "
+              "primitive and struct lists. [T2] (Go-faithful model = specification) proved by mutual induction on fuel over "
+              "canonicalPtr / fillCanonicalStruct / canonicalList (Q_all) for EVERY value: canon_m_correct(_full) (bytes "
+              "returned = canon of the denoted value, never a panic), canon_m_cap_error (capability => error, never bytes), "
+              "non-vacuity instances; its three consequences for Canonicalize (layout independence, value preservation, "
+              "idempotence) are unconditional. Defects F04, O2 and O3 found by the run and fixed; pre-fix "
               "models kept with witnesses.")
-LEVEL_NOTE = ("Level 'proof' refers to [T1] (DESIGN legend: the committed theorems). The stretch theorem [T2] -- the Go-faithful "
-              "model of Canonicalize equals the specification for every value -- is NOT proved in general (open: the heap-level "
-              "induction over allocation order and pointer words); the implementation is tied to the specification by the "
-              "differential run on every case. Trusted: Coq kernel, extraction, harness, hand-written model and specification.")
+LEVEL_NOTE = ("Level 'proof' covers [T1] (the specification-level theorems) AND the stretch theorem [T2]: the Go-faithful model of "
+              "Canonicalize returns exactly the specification's canonical bytes for every value, with no domain restriction. Not "
+              "proved: which inputs make Canonicalize return an error instead of bytes (limits, sizes); only 'never a panic' and "
+              "'a capability never yields bytes' are. [T2] is about the hand-written model; the implementation is tied to the "
+              "model and the specification by the differential run on every case. Trusted: Coq kernel, extraction, harness, "
+              "hand-written model and specification.")
 TECHNIQUE = "Coq proof over an executable model + extracted-model/implementation differential run"
 DESIGN_REF = "DESIGN.md section 6, C18"
 
@@ -76,6 +81,8 @@ def _far_null(case):
 
 def classify(run, case, impl, model):
     kind = case.split()[0].split("/")[0]
+    if kind == "big":
+        return "%s/impl=%s/model=%s" % (case.split()[0], impl.split()[0], model.split()[0])
     if _far_null(case):
         kind += "+farnull"
     i, m = _f(impl), _f(model)
@@ -94,6 +101,8 @@ def violates(run, case, impl, model):
     # the property's predicates on the implementation: a panic; on a completely walked tree: bytes different from the
     # canonical-form specification, an error on a capability-free value, success on a value with capabilities, or one
     # of R (reads back Equal) / I (idempotent) / G (same bytes as the other layouts) false
+    if case.startswith("big"):
+        return impl != model    # implementation-side predicates of the property (R I K J X)
     i, m = _f(impl), _f(model)
     if i[0] == "panic" or i[1] == "panic":
         return True
